@@ -39,7 +39,7 @@ SOURCES = ['path', 'gz', 'bz2', 'memory']
 ENCODINGS = [None, 'utf-8', 'utf-8-sig', 'utf-16', 'utf-16-le', 'utf-32', 'latin-1', 'cp1252', 'ascii']
 REQUIRED = (['fmt:' + f for f in FORMATS] + ['source:' + s for s in SOURCES] + ['encoding:%s' % e for e in ENCODINGS] +
             ['quoting:%d-judged' % q for q in (0, 1, 2, 3)] + ['cell-with-delimiter', 'cell-with-quotechar', 'cell-with-CR', 'cell-with-LF',
-             'cell-with-CRLF', 'cell-with-NUL', 'append-bytes-compared', 'write_header=False', 'header-on-read', 'stdlib-not-lossless-skipped'])
+             'cell-with-CRLF', 'cell-with-NUL', 'append-bytes-compared', 'write_header=False', 'header-on-read', 'stdlib-not-lossless-skipped', 'target-held-older-longer-content'])
 
 ALPHA = [',', ';', '\t', '|', '"', "'", '\r', '\n', '\r\n', '\0', ' ', 'é', 'ü', '€', '漢', 'a', 'b', 'Z', '0', '1', '', '']
 TYPED = [None, 0, 1, -2, 2.5, True, False, gen.D(2020, 1, 1), (1, 'x'), b'by', 1e100]
@@ -58,7 +58,7 @@ def cases(ctx):
         fmt = FORMATS[i % len(FORMATS)] if rng.random() < 0.5 else rng.choice(['csv', 'csv', 'tsv'])
         nf = rng.randint(1, 3)
         n = rng.choice([0, 1, 2, 3, 4, 5])
-        c = {'fmt': fmt, 'source': rng.choice(SOURCES), 'appends': rng.choice([0, 0, 1, 2, 3])}
+        c = {'fmt': fmt, 'source': rng.choice(SOURCES), 'appends': rng.choice([0, 0, 1, 2, 3]), 'prefill': rng.random() < 0.3}
         if fmt in ('csv', 'tsv'):
             def cell():
                 return rng.choice(TYPED) if rng.random() < 0.2 else _text(rng)
@@ -138,6 +138,17 @@ def _reader(t):
     if isinstance(t, MemorySource):
         return MemorySource(t.getvalue() or b'')
     return t
+
+
+def _prefill(t, fmt):
+    """a longer table is written to the target first: to* must replace it completely"""
+    junk = [['JUNK%d' % i for i in range(4)]] + [['old-content-%d-%d' % (r, c) for c in range(4)] for r in range(12)]
+    if fmt in ('csv', 'tsv'):
+        petl.tocsv(junk, t)
+    elif fmt == 'pickle':
+        petl.topickle(junk, t)
+    else:
+        petl.tojson(junk, t)
 
 
 def _cleanup(*ts):
@@ -233,6 +244,9 @@ def _judge_csv(case, ctx):
         wkw['write_header'] = False
         ctx.seen('write_header=False')
     try:
+        if case.get('prefill'):
+            _prefill(t1, fmt)
+            ctx.seen('target-held-older-longer-content')
         r = util.attempt(lambda: to(table, t1, **wkw))
         if isinstance(r, util.Raised):
             return {'kind': 'exception', 'fn': 'to' + fmt, 'detail': r.text, 'where': r.where}
@@ -297,6 +311,9 @@ def _judge_pickle(case, ctx):
     t2 = _target(ctx, case['source'], 'cat')
     out = []
     try:
+        if case.get('prefill'):
+            _prefill(t1, 'pickle')
+            ctx.seen('target-held-older-longer-content')
         r = util.attempt(lambda: petl.topickle(table, t1, **wkw))
         if isinstance(r, util.Raised):
             return {'kind': 'exception', 'fn': 'topickle', 'detail': r.text, 'where': r.where}
@@ -342,6 +359,9 @@ def _judge_json(case, ctx):
     t1 = _target(ctx, case['source'], 'w')
     out = []
     try:
+        if case.get('prefill'):
+            _prefill(t1, 'json')
+            ctx.seen('target-held-older-longer-content')
         if fmt == 'jsonarrays':
             akw = dict(kw)
             if case['output_header']:
